@@ -122,6 +122,35 @@ pub fn make_linked_list<'a>(vbar: bool, mut terms: Vec<Unifiable>) -> Unifiable 
 
 } // make_linked_list()
 
+/// Makes a list which holds exactly the given terms, in order.
+///
+/// Unlike [make_linked_list()](../s_linked_list/fn.make_linked_list.html),
+/// this function never treats the last term as the tail of the list.
+/// A term which is itself a list (even an empty list) becomes one element.
+/// It is used to build the results of append(), include() and exclude().
+///
+/// # Arguments
+/// * vector of unifiable terms
+/// # Return
+/// * [SLinkedList](../unifiable/enum.Unifiable.html#variant.SLinkedList)
+/// # Usage
+/// ```
+/// use suiron::*;
+///
+/// let inner = parse_term("[b, c]").unwrap();
+/// let list = make_list_of_terms(vec![atom!("a"), inner]);
+/// println!("{}", list);  // Prints: [a, [b, c]]
+/// ```
+pub fn make_list_of_terms(terms: Vec<Unifiable>) -> Unifiable {
+    let mut list = cons_node!(Nil, Nil, 0, false);
+    let mut count = 0;
+    for term in terms.into_iter().rev() {
+        count += 1;
+        list = cons_node!(term, list, count, false);
+    }
+    return list;
+} // make_list_of_terms()
+
 /// Compares two characters. Checks for backslash escapes: \\
 ///
 /// If the character indexed in the vector of characters is the same as
@@ -476,7 +505,7 @@ pub fn filter(filter: &Unifiable,
             } // match
         } // while
 
-        let new_list = make_linked_list(false, filtered_terms);
+        let new_list = make_list_of_terms(filtered_terms);
         return Some(new_list);
     }
     return None;
